@@ -191,6 +191,15 @@ impl<R: Read + Seek> ZbsdiffPatcher<R> {
         let header = ZbsdiffHeader::read_options(&mut cursor, binrw::Endian::Little, ())?;
         header.validate()?;
 
+        // The output size stated in the patch header is authoritative; the
+        // patcher must have been created for exactly that size.
+        if header.output_size as usize != self.output_capacity {
+            return Err(ZbsdiffError::SizeMismatch {
+                expected: header.output_size as usize,
+                actual: self.output_capacity,
+            });
+        }
+
         // Read compressed blocks
         let mut control_compressed = vec![0u8; header.control_size as usize];
         cursor.read_exact(&mut control_compressed)?;
